@@ -2,9 +2,13 @@ import os
 from checks.generic import standard
 
 def run(ctx):
+    # a broken obligation without a canary: the escalated search is bounded (the first run already renders every
+    # page in its variants with the wrapper family and the stored canaries)
+    os.environ.setdefault("VERIF_ESCALATION_S", "240")
     return standard(ctx,
         props=[("Props.C18", ["c18_escape_safe", "c18_hidden_input", "c18_old_input_refuted", "c18_escaped_fields_inert", "c18_document_no_raw", "c18_page_fields_inert", "c18_typed_failure_refuted", "c18_raw_field_refuted", "c18_field_contexts_safe", "c18_quoted_value", "c18_unquoted_value",
-                                 "c18_hand_attr_quoted_inert", "c18_hand_attr_unquoted_blankfree", "c18_hand_attr_unquoted_refuted"])],
+                                 "c18_hand_attr_quoted_inert", "c18_hand_attr_unquoted_blankfree", "c18_hand_attr_unquoted_refuted",
+                                 "c18_stored_fields_inert", "c18_stored_raw_refuted", "c18_part_quoted_inert", "c18_part_unquoted_refuted", "c18_email_wrapper_reaches_part"])],
         harness=("TestVerif_C18", ["kmd/common.go", "kmd/creds.go", "kmd/c18.go", "kmd/c18b.go", "kmd/c18c.go", "kmd/vdevice.go", os.path.join(ctx.work, "gen", "c18_admin_gen.go")]),
         obl=("Obl_C18.v", ["c18_raw_sinks", "c18_login_input_escaped", "c18_direct_writes", "c18_templates_html", "c18_text_templates_offline", "c18_html_typed_writers", "c18_field_contexts", "c18_handbuilt_quoting", "c18_admin_routes_listed"]),
         cases=("CasesC18.v", [("c18_mismatches", "VALUE attribute of the hidden INPUT in served pages = html_escape(ensureHTMLSafeLoginDestination(dest))"),
